@@ -400,6 +400,14 @@ func (s *Store) lookupSecretInternal(ctx context.Context, name string) (Secret, 
 
 			s.active.Lock()
 			defer s.active.Unlock()
+			if _, ok := s.active.m[name]; ok {
+				// Another lookup installed this secret while our request was in
+				// flight (its caller found the name unknown before that lookup
+				// finished). Keep the existing entry: replacing it here would
+				// bypass the watchers, which are only notified by polls, and could
+				// roll back a value a poll has installed since.
+				return s.secretLocked(name), nil
+			}
 			s.active.m[name] = &cachedSecret{Secret: sv, LastAccess: s.timeNow().Unix()}
 			if err := s.flushCacheLocked(); err != nil {
 				s.logf("WARNING: error flushing cache: %v", err)
